@@ -244,6 +244,14 @@ class ClassRef(object):
             self._members = m
         return self._members
 
+    def enum_kind(self):
+        """'IntEnum' / 'Enum' when the class derives directly from the (unmodelled) enum module's class of that name, else None"""
+        for b in self.bases():
+            nm = getattr(b, "_name", None) if isinstance(b, AutoMock) else getattr(b, "__name__", None)
+            if isinstance(nm, str) and nm.split(".")[-1] in ("IntEnum", "Enum", "IntFlag"):
+                return nm.split(".")[-1]
+        return None
+
     def find(self, name):
         """-> (member, defining ClassRef) following the bases; (None, None) if not found; raises Unsupported for a non-repository base."""
         m = self.members()
@@ -284,6 +292,20 @@ class ClassRef(object):
         elif args or kwargs:
             raise Unsupported("class %s has no __init__ but is given arguments" % self.name)
         return inst
+
+
+class IntEnumMember(int):
+    """value of a member of a repository class derived from enum.IntEnum (or an int-valued enum.Enum): compares and hashes as its int"""
+    _sa_mock = True
+
+    @classmethod
+    def make(cls, v, name, owner):
+        o = int.__new__(cls, v)
+        o.value, o.name, o._owner = int(v), name, owner
+        return o
+
+    def __repr__(self):
+        return "<%s.%s: %d>" % (self._owner, self.name, int(self))
 
 
 class Instance(object):
@@ -538,6 +560,8 @@ def _isinstance(interp):
                 if isinstance(obj, Instance):
                     if obj._cls.is_sub(c):
                         return True
+                elif getattr(obj, "_sa_foreign", False):
+                    continue          # a stand-in for an object of a NON-repository type (a compiled extension object): never an instance of a repository class
                 elif getattr(obj, "_sa_mock", False):
                     raise Unsupported("isinstance of the mock %r against the repository class %s (no mock registered for it)" % (obj, c.name))
             elif isinstance(c, AutoMock):
@@ -571,7 +595,7 @@ class Interp(object):
         self.depth = 0
         self.builtins = dict(_PURE)
         self.builtins.update(_EXC)
-        self.builtins.update({"isinstance": _isinstance(self), "hasattr": self._hasattr, "getattr": self._getattr3, "setattr": self._setattr3,
+        self.builtins.update({"isinstance": _isinstance(self), "hasattr": self._hasattr, "getattr": self._getattr3, "setattr": self._setattr3, "delattr": lambda o, a: self.delattr_(o, a),
                               "print": lambda *a, **k: None, "True": True, "False": False, "None": None, "NotImplemented": NotImplemented,
                               "type": self._type, "issubclass": self._issubclass, "len": self._len})
 
@@ -579,7 +603,12 @@ class Interp(object):
     def _dunder(self, obj, name):
         """the bound special method `name` an instance of a repository class defines (own or inherited from a repository class), else None."""
         if isinstance(obj, Instance):
-            m, c = obj._cls.find(name)
+            try:
+                m, c = obj._cls.find(name)
+            except Unsupported:
+                if name in ("__setattr__", "__delattr__"):
+                    return None       # an unmodelled base (collections.abc mix-in): attribute assignment is the plain one
+                raise
             hops = 0
             while isinstance(m, tuple) and m[0] == "expr" and isinstance(m[1], ast.Name) and c is not None and hops < 4:
                 m, c = c.find(m[1].id)          # class-level alias: __truediv__ = __div__
@@ -649,6 +678,10 @@ class Interp(object):
                     if isinstance(m, Closure) and m.kind == "function":
                         special = m.bind(obj if isinstance(obj, Instance) else obj.inst)
                         break
+                if special is None and isinstance(obj, SuperProxy) and attr in ("__setattr__", "__delattr__") and all(b is object or isinstance(b, ClassRef) for b in obj.start.bases()):
+                    # super().__setattr__(name, value) falling through to object: the plain store / removal
+                    inst_ = obj.inst
+                    special = (lambda name, value: self.raw_setattr(inst_, name, value)) if attr == "__setattr__" else (lambda name: self.raw_delattr(inst_, name))
             elif attr in ("__iter__", "__len__", "__contains__", "__getitem__", "__setitem__", "__delitem__") and \
                     type(obj) in (dict, collections.OrderedDict, list, set, frozenset, tuple, str):
                 special = getattr(obj, attr)      # d.__iter__() is iter(d) on a plain container
@@ -711,7 +744,16 @@ class Interp(object):
 
     def _member(self, m, cls, inst, klass=None):
         if isinstance(m, tuple) and m[0] == "expr":
-            return self.ev(m[1], Frame(cls.ctx))
+            v = self.ev(m[1], Frame(cls.ctx))
+            kind = cls.enum_kind() if isinstance(cls, ClassRef) else None
+            if kind is not None and isinstance(v, int) and not isinstance(v, bool) and not isinstance(v, IntEnumMember):
+                # a member of an enum.IntEnum / enum.Enum class of the repository (OperationEnum.mul): an int that also answers .value / .name
+                name = next((k for k, mm in cls.members().items() if mm is m), None)
+                cache = cls.__dict__.setdefault("_enum_cache", {})
+                if name not in cache:
+                    cache[name] = IntEnumMember.make(v, name, cls.name)
+                return cache[name]
+            return v
         if isinstance(m, Closure):
             if m.kind.startswith("unsupported:"):
                 raise Unsupported("method %s.%s carries the unmodelled decorator %s" % (cls.name, m.name, m.kind.split(":", 1)[1]))
@@ -732,11 +774,11 @@ class Interp(object):
         if attr.startswith("__"):
             raise Unsupported("store to special attribute %s" % attr)
         if isinstance(obj, Instance):
-            m, c = obj._cls.find(attr + ".setter")
-            if m is not None:
-                m.bind(obj)(val)
+            hook = self._dunder(obj, "__setattr__")
+            if hook is not None:
+                hook(attr, val)           # a repository class that overrides attribute assignment (aml.Model registers what is assigned)
                 return
-            obj._attrs[attr] = val
+            self.raw_setattr(obj, attr, val)
             return
         if isinstance(obj, AutoMock):
             setattr(obj, attr, val)
@@ -750,6 +792,29 @@ class Interp(object):
                 raise Unsupported("mock %r does not allow storing attribute %r" % (obj, attr))
             return
         raise ProgramError(AttributeError("cannot set attribute %s of %s" % (attr, type(obj).__name__)))
+
+    def raw_setattr(self, obj, attr, val):
+        """object.__setattr__ on an instance of a repository class: property setters apply, else the instance dictionary"""
+        m, c = obj._cls.find(attr + ".setter")
+        if m is not None:
+            m.bind(obj)(val)
+            return
+        obj._attrs[attr] = val
+
+    def delattr_(self, obj, attr, node=None):
+        if isinstance(obj, Instance):
+            hook = self._dunder(obj, "__delattr__")
+            if hook is not None:
+                hook(attr)
+                return
+            self.raw_delattr(obj, attr, node)
+            return
+        raise Unsupported("del attribute of %r" % (obj,))
+
+    def raw_delattr(self, obj, attr, node=None):
+        if attr not in obj._attrs:
+            raise ProgramError(AttributeError(attr), getattr(node, "lineno", None))
+        del obj._attrs[attr]
 
     # ---------------------------------------------------------------- calls
     def call(self, f, args, kwargs, node=None):
@@ -1357,7 +1422,10 @@ class Interp(object):
             elif isinstance(t, ast.Attribute):
                 obj = self.ev(t.value, fr)
                 if isinstance(obj, Instance):
-                    obj._attrs.pop(t.attr, None)
+                    if self._dunder(obj, "__delattr__") is not None:
+                        self.delattr_(obj, t.attr, s)
+                    else:
+                        obj._attrs.pop(t.attr, None)
                 else:
                     raise Unsupported("del attribute of %r" % (obj,))
             else:
@@ -1847,7 +1915,15 @@ class CSR(object):
         raise Unsupported("csr_matrix.getrow not modelled")
 
     def toarray(self):
-        raise Unsupported("csr_matrix.toarray not modelled")
+        """dense rows as a list of lists (duplicates summed, as scipy does)"""
+        rows = [[0.0] * self.shape[1] for _ in range(self.shape[0])]
+        ptr, idx, dat = list(self.indptr.v), list(self.indices.v), list(self.data.v)
+        for r in range(self.shape[0]):
+            for k in range(ptr[r], ptr[r + 1]):
+                if not 0 <= idx[k] < self.shape[1]:
+                    raise ValueError("column index %r out of range" % (idx[k],))
+                rows[r][idx[k]] += dat[k]
+        return rows
 
 
 class COO(object):
